@@ -1,8 +1,12 @@
 package domainmatcher
 
 import (
+	"io"
+
 	"github.com/IrineSistiana/mosproxy/internal/verifrt"
 )
+
+var vEOF = io.EOF
 
 // label-length shapes (wire order: leftmost label first)
 var vShapes = [][]int{{1}, {1, 1}, {2}, {1, 1, 1}, {2, 1}}
@@ -164,4 +168,49 @@ func VerifH_C11_AddBadType() {
 	verifrt.Reach("bad")
 	verifrt.Assert(err != nil, "unknown rule type rejected")
 	verifrt.Assert(m.Len() == 0, "nothing added")
+}
+
+type vReader struct {
+	data []byte
+	pos  int
+}
+
+func (r *vReader) Read(p []byte) (int, error) {
+	if r.pos >= len(r.data) {
+		return 0, vEOF
+	}
+	n := copy(p, r.data[r.pos:])
+	r.pos += n
+	return n, nil
+}
+
+// VerifH_C11_LoaderLines: '#' comments and blank lines are ignored, surrounding white space is trimmed,
+// every remaining line is an entry.
+func VerifH_C11_LoaderLines() {
+	verifrt.Unwind(300)
+	a, b := verifrt.Byte("a"), verifrt.Byte("b")
+	verifrt.Assume('a' <= a && a <= 'z' && 'a' <= b && b <= 'z' && a != b)
+	var text []byte
+	text = append(text, "# leading comment\n"...)
+	text = append(text, "\n"...)
+	text = append(text, "  "...)
+	text = append(text, a)
+	text = append(text, ".x   # trailing comment full:zz.x\n"...)
+	text = append(text, "\t\n"...)
+	text = append(text, "#"...)
+	text = append(text, b)
+	text = append(text, ".x\n"...)
+	text = append(text, "full:"...)
+	text = append(text, b)
+	text = append(text, ".y"...) // last line without newline
+	m := NewMixMatcher()
+	err := LoadMixMatcherFromReader(m, &vReader{data: text})
+	verifrt.Assert(err == nil, "a well-formed file loads")
+	verifrt.Reach("loaded")
+	verifrt.Assert(m.Len() == 2, "two entries: comments and blank lines are not entries")
+	verifrt.Assert(m.Match(vWire([][]byte{{a}, {'x'}})), "entry before a trailing comment is loaded (trimmed)")
+	verifrt.Assert(m.Match(vWire([][]byte{{'w'}, {a}, {'x'}})), "bare entries are domain entries")
+	verifrt.Assert(!m.Match(vWire([][]byte{{b}, {'x'}})), "a commented-out entry is ignored")
+	verifrt.Assert(!m.Match(vWire([][]byte{{'z', 'z'}, {'x'}})), "text after '#' is ignored")
+	verifrt.Assert(m.Match(vWire([][]byte{{b}, {'y'}})) && !m.Match(vWire([][]byte{{'w'}, {b}, {'y'}})), "the last line (no newline) is a full: entry")
 }
